@@ -275,6 +275,49 @@ def gen_group(rng, pagesize, env, ncases, quick):
     return cases
 
 
+def run_window(ctx, exe, drv, pagesize, quick):
+    """Directed window schedules on the shared reuse list (deterministic counterpart of the free-running stress): thread t1
+    starts an alloc with an empty cache and is held right before it takes reuse_lock - after its unlocked look at the list -,
+    thread t2 performs a whole alloc (pulls the head batch), t1 continues.  The real outcome (two A lines in lock order) must
+    equal the op-atomic model's outcome for `A t2; A t1`, and no block may be handed out twice afterwards (independent
+    changes C14-1 / C14-4: the head batch read before the lock is used after it)."""
+    res = {"cases": 0, "mismatches": 0, "not_held": 0}
+    fails = []
+    mism = []
+    for (size, align, api, extra) in ([(2048, 0, 0, 2), (4096, 64, 1, 0)] if quick else [(2048, 0, 0, 2), (4096, 64, 1, 0), (1024, 0, 0, 1), (8192, 0, 1, 3), (3000, 8, 0, 2)]):
+        item, ipa, _mx = py_sizes(pagesize, env_value(None), 0, size, align)
+        n = 3 * ipa + 2 + extra
+        pre = ["C 0 %d %d %d" % (size, align, api)] + ["A 0 0"] * n + ["F 0 0 %d" % k for k in range(n)]
+        post = ["A 0 1", "A 0 2", "A 0 1", "A 0 2", "A 0 3", "S 0 2", "X"]
+        il = pre + ["W 0 1 2"] + post
+        ml = pre + ["A 0 2", "A 0 1"] + post
+        rc, out, err = core.run_lines(exe, il + ["Q"], timeout=120, env=core.qenv())
+        rc2, mout, merr = core.run_lines(drv, ["E %d %d" % (pagesize, env_value(None))] + ml, timeout=120)
+        iout, mo = out[1:], mout[1:]
+        res["cases"] += 1
+        case = {"name": "window", "pool": dict(size=size, align=align, qpool=api, items_per_alloc=ipa), "impl_script": il, "model_script": ml}
+        for k in range(len(ml)):
+            a = iout[k] if k < len(iout) else "<no output: crash or hang>"
+            b = mo[k] if k < len(mo) else "<no model output>"
+            if "NOTHELD" in a:
+                res["not_held"] += 1
+                a = a.replace(" NOTHELD", "")
+            i_s, why = strip_impl(a)
+            m_s, _tag = strip_model(b)
+            if ml[k].startswith("A ") and why not in ("ok", None):
+                fails.append(("block handed out while another holder has it (%s) at step %d `%s` of the window schedule: thread 1 held "
+                              "before reuse_lock, thread 2 refills, thread 1 continues" % (why, k, ml[k]), dict(case, step=k, impl=a)))
+                break
+            if i_s != m_s:
+                res["mismatches"] += 1
+                mism.append(dict(case, step=k, command=ml[k], impl=a[:300], model=b[:300]))
+                break
+            if k >= len(iout):
+                fails.append(("the real code crashed or hung in the window schedule at step %d" % k, dict(case, step=k)))
+                break
+    return res, mism, fails
+
+
 def gen_churn(rng, n=1100):
     """pool churn in ONE process: more short-lived pools than the process has pthread keys (PTHREAD_KEYS_MAX = 1024), next
     to a long-lived pool with live blocks.  Every pool owns per-thread state (a pthread key); a destroy that does not give
@@ -556,6 +599,14 @@ def run(ctx):
                     kv["free_items"], kv["dups"], kv["bad"], int(kv["slabs"]) * int(kv["ipa"]))
         if bad:
             oracle_fail.append((bad, {"env": env, "script": lines, "reason": bad, "free_running": True}))
+    # ---------------- directed window schedules on the shared reuse list
+    wres, wmism, wfails = run_window(ctx, exe, drv, pagesize, quick)
+    evals += wres["cases"]
+    ctx.cov["window_schedules"] = wres
+    for mm in wmism:
+        mismatches.append(dict(mm, case="window"))
+    for (w, c) in wfails:
+        oracle_fail.append((w, c))
     # ---------------- verdict ----------------
     ctx.cov.update(evaluations=evals, distinct_nontrivial=len(nontrivial), samples=samples,
                    rule="scripts of alloc/free over 1-8 pthreads and 1-3 pools, phases sized at ipa-1/ipa/ipa+1/2ipa-1/2ipa/2ipa+1/3ipa with "
